@@ -10,6 +10,8 @@ streams (see lean/PlasVerif/Driver/C03.lean for the word formats)
   ifscanwf : one conditional tree + trailing tokens, as real tokens fed to the real
              TeX.processIfContent(which); observation = the token stream left on the input.
   ifscan   : arbitrary (also unbalanced) token lists through processIfContent: implementation vs model only.
+  newif    : names handed to the real Context.newif on a fresh context: the macro names it registers (switch, true-setter,
+             false-setter) and whether the setters drive the switch; model = newifNames, spec = TeX's \\<rest>true/\\<rest>false.
   toks     : arbitrary (also unbalanced) token lists as documents: implementation vs model only.
 """
 import logging, random
@@ -365,6 +367,11 @@ def generate(ctx):
     for _ in range(n // 2):            # malformed / arbitrary (about 15% of all cases)
         w = rng.choice(['T', 'F', 'F'] + [str(i) for i in range(-3, 6)])
         yield Case('ifscan', w + ' ' + ' '.join(gen_raw_tokens(rng, False)), {})
+    for _ in range(n // 10):           # names handed to Context.newif: the part after `if` starts with i / f / if / fi ... or anything
+        rest = ''.join(rng.choice('iiffffoaxtrue') for _ in range(rng.randint(0, 6))) + 'Q' + ''.join(rng.choice('XYZ') for _ in range(2))
+        r = rng.random()
+        name = 'if' + rest if r < 0.85 else rng.choice(['fi', 'i', 'f', 'x', '']) + rest      # ~15% not of the form if<rest>
+        yield Case('newif', ' '.join(str(ord(c)) for c in name), {})
     for _ in range(n // 6):
         yield Case('toks', gen_init(rng) + ' ' + ' '.join(gen_raw_tokens(rng, True)), {'seed': rng.randrange(1 << 30)})
 
@@ -390,6 +397,12 @@ def corpus():
         # signed internal quantities: -\\reg, --\\reg, -\\value, -\\dimreg, 2\\dimreg (readInteger/readDimen sign handling)
         mk('cond', '0,0,0,2,0,0;3,-2,0;131072,-65536,0 [ cN:-r0:lt:l0 1 1 [ tc78 ] [ tc80 ] cK:-r1 1 4 [ tc48 ] [ tc49 ] [ tc50 ] [ tc51 ] [ tc69 ] '
                    'cD:-r0:eq:l-131072 1 1 [ tc89 ] [ tc90 ] cN:--r0:eq:l3 0 1 [ tc68 ] cO:-c3 1 1 [ tc79 ] [ tc69 ] cD:-k2x1:gt:r0 1 1 [ tc71 ] [ tc76 ] cK:-r0 1 2 [ tc97 ] [ tc98 ] [ tc99 ] ]'),
+        # \newif\iffoo -> \footrue/\foofalse, \newif\ififiQ, \newif\iffirstQ (names after `if` starting with i / f)
+        mk('newif', ' '.join(str(ord(c)) for c in 'iffooQ'), {}),
+        mk('newif', ' '.join(str(ord(c)) for c in 'ififiQ'), {}),
+        mk('newif', ' '.join(str(ord(c)) for c in 'iffirstQ'), {}),
+        mk('cond', z + ' [ tw0:1 cS:0 1 1 [ tc84 ] [ tc70 ] tw1:1 tw1:0 cS:1 1 1 [ tc84 ] [ tc70 ] n3 tw3:1 cS:3 1 1 [ tc84 ] [ tc70 ] ]', {'seed': 7}),
+        mk('cond', z + ' [ tw0:1 cS:0 1 1 [ tc84 ] [ tc70 ] tw1:1 tw1:0 cS:1 1 1 [ tc84 ] [ tc70 ] n3 tw3:1 cS:3 1 1 [ tc84 ] [ tc70 ] ]', {'seed': 30}),
         mk('toks', z + ' iF oc65', {'seed': 1}),
         mk('toks', z + ' fi oc65 else oc66 or oc67', {'seed': 1}),
     ]
@@ -400,7 +413,7 @@ def nontrivial(o):
         return False
     if o.case.stream == 'cond':
         return len(o.aux) > 1 and o.aux[1] not in ('0', '')
-    return o.case.stream == 'ifscanwf'
+    return o.case.stream in ('ifscanwf', 'newif')
 
 
 # ---------------------------------------------------------------- spelling (tree -> LaTeX)
@@ -408,7 +421,17 @@ def nontrivial(o):
 CNT = ['c' + chr(97 + i) for i in range(NCOUNTERS)]
 REG = ['rg' + chr(97 + i) for i in range(NREGS)]      # \newcount registers
 DREG = ['dg' + chr(97 + i) for i in range(NREGS)]     # \newdimen registers
-def swname(k): return 'sw' + letters(k)
+# switch names vary with the case: the part after `if` may itself begin with i / f / fi, contain `true`, `else`, `or` ...
+SWPRE = ['sw', 'foo', 'first', 'item', 'fi', 'i', 'f', 'ff', 'final', 'index', 'fif', 'or', 'else', 'true', 'xfalse', 'bar',
+         'Draft', 'fit', 'iii', 'fff', 'fiif', 'newif', 'relax', 'I', 'F']
+
+
+def swname(k, ns=0):
+    """name (without the leading `if`) of switch k under naming seed ns; unique per k"""
+    r = SWPRE[(ns // 7 + 5 * k + ns % 7) % len(SWPRE)] + letters(k) + 'q'
+    if r.startswith('if'):          # the setter \if..true would itself look like a conditional to the skipper (O4, record only)
+        r = 'sw' + letters(k) + 'q'
+    return r
 def nmname(n): return 'nm' + ('m' if n < 0 else 'p') + letters(abs(n))
 def xtname(x): return 'xt' + letters(x[1]) + 'q' + ''.join(chr(c) for c in x[2])
 
@@ -416,6 +439,7 @@ def xtname(x): return 'xt' + letters(x[1]) + 'q' + ''.join(chr(c) for c in x[2])
 class Speller:
     def __init__(self, seed, plain=False):
         self.rng = random.Random(seed)
+        self.ns = seed              # naming seed of the \newif switches
         self.plain = plain          # no wrappers (used for the toks stream)
         self.pre = {}               # macro name -> definition text
         self.nmac = 0
@@ -480,7 +504,7 @@ class Speller:
             return '\\%s %s%s' % ('ifodd' if k == 'O' else 'ifcase', a, '\\relax ' if need else ' ')
         if k == 'X': return '\\ifx %s%s' % (self.xtok(t[1]), self.xtok(t[2]))
         if k == 'G': return '\\ifdefined\\df%s ' % letters(t[1])
-        if k == 'S': return '\\if%s ' % swname(t[1])
+        if k == 'S': return '\\if%s ' % swname(t[1], self.ns)
         raise ValueError(t)
 
     def act(self, a):
@@ -488,7 +512,7 @@ class Speller:
         if k == 'c': return chr(a[1])
         if k == 's': return '\\stepcounter{%s}' % CNT[a[1]]
         if k == 'a': return '\\addtocounter{%s}{%d}' % (CNT[a[1]], a[2])
-        if k == 'w': return '\\%s%s ' % (swname(a[1]), 'true' if a[2] else 'false')
+        if k == 'w': return '\\%s%s ' % (swname(a[1], self.ns), 'true' if a[2] else 'false')
         if k == 'g': return '\\gdef\\df%s{}' % letters(a[1])
         if k == '{': return '{' if self.rng.random() < 0.7 else '\\begingroup '
         if k == '}': return '}'
@@ -497,7 +521,7 @@ class Speller:
     def item(self, i, indef):
         rng = self.rng
         if i[0] == 't': return self.act(i[1])
-        if i[0] == 'n': return '\\newif\\if%s ' % swname(i[1])
+        if i[0] == 'n': return '\\newif\\if%s ' % swname(i[1], self.ns)
         _, t, he, cases, e = i
         param = None
         if not self.plain and not indef and rng.random() < 0.25:
@@ -590,7 +614,7 @@ def preamble(init, sp, cls):
     for i, v in enumerate(ds):
         s += '\\newdimen\\%s \\%s=%dsp\\relax ' % (DREG[i], DREG[i], v)
     for k in range(NSWITCHES):
-        s += '\\newif\\if%s ' % swname(k)
+        s += '\\newif\\if%s ' % swname(k, sp.ns)
     s += '\\def\\dfa{}\\def\\dfb{}'
     s += ''.join(sp.pre[k] for k in sorted(sp.pre))
     return s
@@ -603,7 +627,7 @@ def canon_exc(e):
     return 'err:' + n if n in ('IndexError', 'ValueError', 'StopIteration') else 'err:other:' + n
 
 
-def run_document(src):
+def run_document(src, ns=0):
     from plasTeX.TeX import TeX
     from plasTeX import TeXDocument
     doc = TeXDocument()
@@ -617,7 +641,7 @@ def run_document(src):
         els = doc.getElementsByTagName('document')
         text = ''.join((els[0].textContent if els else doc.textContent).split())
         cnts = ','.join(str(int(doc.context.counters[c].value)) for c in CNT)
-        sws = ''.join('1' if doc.context['if' + swname(k)].state else '0' for k in range(NSWITCHES))
+        sws = ''.join('1' if doc.context['if' + swname(k, ns)].state else '0' for k in range(NSWITCHES))
         return 'ok:%s|%s|%s' % ('.'.join(str(ord(c)) for c in text), cnts, sws)
     finally:
         _release(doc, tex)
@@ -662,6 +686,7 @@ def real_tokens(words):
     """each word becomes one or more real tokens; returns (tokens, owner) with owner[id(tok)] = (word index, sub index, group size)"""
     from plasTeX.Tokenizer import EscapeSequence, Letter, Other, Space
     toks, owner = [], {}
+    ns = len(words) * 13        # naming seed of the switches in this token list
     def add(wi, group):
         for si, t in enumerate(group):
             owner[id(t)] = (wi, si, len(group))
@@ -692,7 +717,7 @@ def real_tokens(words):
             elif k == 'K': g = [EscapeSequence('ifcase')] + opnd(t[1])
             elif k == 'X': g = [EscapeSequence('ifx')] + [Letter(chr(x[1])) if x[0] == 'c' else EscapeSequence(xtname(x)) for x in (t[1], t[2])]
             elif k == 'G': g = [EscapeSequence('ifdefined'), EscapeSequence('df' + letters(t[1]))]
-            else: g = [EscapeSequence('if' + swname(t[1]))]
+            else: g = [EscapeSequence('if' + swname(t[1], ns))]
             add(wi, g)
         else:
             a = p_act(w[1:])
@@ -700,7 +725,7 @@ def real_tokens(words):
             if k == 'c': g = [Letter(chr(a[1])) if chr(a[1]).isalpha() else Other(chr(a[1]))]
             elif k == 's': g = [EscapeSequence('stepcounter'), Other('{'), Letter('c'), Letter(chr(97 + a[1])), Other('}')]
             elif k == 'a': g = [EscapeSequence('addtocounter'), Other('{'), Letter('c'), Letter(chr(97 + a[1])), Other('}'), Other('{')] + [Other(c) for c in str(a[2])] + [Other('}')]
-            elif k == 'w': g = [EscapeSequence(swname(a[1]) + ('true' if a[2] else 'false'))]
+            elif k == 'w': g = [EscapeSequence(swname(a[1], ns) + ('true' if a[2] else 'false'))]
             elif k == 'g': g = [EscapeSequence('gdef'), EscapeSequence('df' + letters(a[1])), Other('{'), Other('}')]
             elif k == '{': g = [EscapeSequence('begingroup')]
             else: g = [EscapeSequence('endgroup')]
@@ -741,9 +766,51 @@ def run_processif(which, words):
     return 'ok:%d:%s%s' % (0 if _warn else 1, ' '.join(out), ' !broken' if broken else '')
 
 
+def run_newif(name):
+    """the real Context.newif on a fresh context: which macro names appear, and do the setters drive the switch"""
+    import plasTeX
+    from plasTeX import TeXDocument
+    doc = TeXDocument()
+    ctx = doc.context
+    try:
+        before = set(ctx.keys())
+        try:
+            ctx.newif(name)
+        except Exception as e:
+            return canon_exc(e)
+        new = [k for k in ctx.keys() if k not in before]
+        kinds = {'sw': [], 't': [], 'f': []}
+        for k in new:
+            obj = ctx[k]
+            cls = obj if isinstance(obj, type) else type(obj)
+            if issubclass(cls, plasTeX.NewIf): kinds['sw'].append(k)
+            elif issubclass(cls, plasTeX.IfTrue): kinds['t'].append(k)
+            elif issubclass(cls, plasTeX.IfFalse): kinds['f'].append(k)
+        if sorted(len(v) for v in kinds.values()) != [1, 1, 1] or len(new) != 3:
+            return 'bad:new-names:' + ','.join(sorted(new))
+        sw, t, f = kinds['sw'][0], kinds['t'][0], kinds['f'][0]
+        swc = ctx[sw] if isinstance(ctx[sw], type) else type(ctx[sw])
+        drives = swc.state is False
+        doc.createElement(t).invoke(None); drives = drives and swc.state is True
+        doc.createElement(f).invoke(None); drives = drives and swc.state is False
+        if not drives:
+            return 'bad:setters-do-not-drive-the-switch'
+        dots = lambda x: '.'.join(str(ord(c)) for c in x)
+        return 'ok:%s|%s|%s' % (dots(sw), dots(t), dots(f))
+    finally:
+        try:
+            for c in list(ctx.contexts):
+                c.clear()
+            ctx.__dict__.clear()
+        except Exception:
+            pass
+
+
 def impl(case, aux):
     st = case.stream
     f = case.line.split()
+    if st == 'newif':
+        return run_newif(''.join(chr(int(x)) for x in f))
     if st == 'ifscan':
         return run_processif(f[0], f[1:])
     if st == 'ifscanwf':
@@ -763,7 +830,7 @@ def impl(case, aux):
         raise ValueError(st)
     if isinstance(case.meta, dict):
         case.meta['tex'] = text
-    return run_document(src)
+    return run_document(src, seed)
 
 
 def judge(o):
